@@ -473,56 +473,84 @@ def str_split(ip: Interp, s, sep) -> SV:
 
 
 def str_format(ip: Interp, s, args, kw) -> SV:
-    """template.format(c=...) — only keyword fields named in kw; user text with braces raises."""
+    """template.format(name=...) — only keyword fields; text whose braces were doubled comes back
+    verbatim; any other text containing a brace makes format raise (KeyError/IndexError/ValueError:
+    modelled as KeyError)."""
     if args:
         raise Unsupported('positional format')
-    pieces = E.flatten_concat(z3.simplify(s))
-    out = []
     conds = []
-    for p in pieces:
-        if z3.is_string_value(p):
-            lit = p.as_string()
-            # process the literal natively with placeholders kept symbolic
-            i = 0
-            cur = ''
-            while i < len(lit):
-                ch = lit[i]
-                if ch == '{':
-                    if lit[i:i + 2] == '{{':
-                        cur += '{'
-                        i += 2
-                        continue
-                    j = lit.find('}', i)
-                    if j < 0:
-                        raise PyRaise(ValueError, (), 'format: single {')
-                    name = lit[i + 1:j]
-                    if name not in kw:
-                        raise PyRaise(KeyError if name else IndexError, (), f'format field {name!r}')
-                    if cur:
-                        out.append(SVAL(cur))
-                        cur = ''
-                    out.append(ip.to_str(kw[name]).e)
-                    i = j + 1
+
+    def lit(text):
+        out = []
+        i = 0
+        cur = ''
+        while i < len(text):
+            ch = text[i]
+            if ch == '{':
+                if text[i:i + 2] == '{{':
+                    cur += '{'
+                    i += 2
                     continue
-                if ch == '}':
-                    if lit[i:i + 2] == '}}':
-                        cur += '}'
-                        i += 2
-                        continue
-                    raise PyRaise(ValueError, (), 'format: single }')
-                cur += ch
-                i += 1
-            if cur:
-                out.append(SVAL(cur))
+                j = text.find('}', i)
+                if j < 0:
+                    raise PyRaise(ValueError, (), 'format: single {')
+                name = text[i + 1:j]
+                if name not in kw:
+                    raise PyRaise(KeyError if name else IndexError, (), f'format field {name!r}')
+                if cur:
+                    out.append(SVAL(cur))
+                    cur = ''
+                out.append(ip.to_str(kw[name]).e)
+                i = j + 1
+                continue
+            if ch == '}':
+                if text[i:i + 2] == '}}':
+                    cur += '}'
+                    i += 2
+                    continue
+                raise PyRaise(ValueError, (), 'format: single }')
+            cur += ch
+            i += 1
+        if cur:
+            out.append(SVAL(cur))
+        return out
+
+    def fmt(e, guard):
+        if z3.is_string_value(e):
+            parts = lit(e.as_string())
+        elif z3.is_app(e) and e.decl().kind() == z3.Z3_OP_SEQ_CONCAT:
+            parts = []
+            for c in e.children():
+                parts.append(fmt(c, guard))
+        elif z3.is_app(e) and e.decl().kind() == z3.Z3_OP_ITE:
+            c = e.arg(0)
+            return z3.If(c, fmt(e.arg(1), guard + [c]), fmt(e.arg(2), guard + [z3.Not(c)]))
         else:
-            conds.append(z3.And(z3.Not(z3.Contains(p, SVAL('{'))), z3.Not(z3.Contains(p, SVAL('}')))))
-            out.append(p)
+            inner = undoubled(e)
+            if inner is not None:
+                # lemma L-format-unescape (pyvc/lemmas.py): format(t.replace('{','{{').replace('}','}}')) == t
+                return inner
+            ok = z3.And(z3.Not(z3.Contains(e, SVAL('{'))), z3.Not(z3.Contains(e, SVAL('}'))))
+            conds.append(z3.Implies(z3.And(*guard), ok) if guard else ok)
+            return e
+        if not parts:
+            return SVAL('')
+        return z3.Concat(*parts) if len(parts) > 1 else parts[0]
+    res = fmt(s, [])
     if conds:
         if not ip.decide(z3.And(*conds)):
             raise PyRaise(KeyError, (), 'str.format on text containing braces')
-    if not out:
-        return mk_str('')
-    return mk_str(z3.Concat(*out) if len(out) > 1 else out[0])
+    return mk_str(res)
+
+
+def undoubled(p):
+    """t if p is replace_all(replace_all(t, "{", "{{"), "}", "}}"), else None."""
+    def is_rep(e, a, b):
+        return (z3.is_app(e) and e.decl().kind() == z3.Z3_OP_SEQ_REPLACE_ALL and z3.is_string_value(e.arg(1))
+                and z3.is_string_value(e.arg(2)) and e.arg(1).as_string() == a and e.arg(2).as_string() == b)
+    if is_rep(p, '}', '}}') and is_rep(p.arg(0), '{', '{{'):
+        return p.arg(0).arg(0)
+    return None
 
 
 def pylist_method(ip: Interp, obj: SV, name: str, args, kw) -> SV:
